@@ -22,8 +22,10 @@
   remembered otherwise; there are no spurious wake-ups.  The mutex makes every
   FIFO operation one atomic step.
 
-  Two switches describe the proposed repair (notes/C19.fix.patch); both are
-  `false` in `codeCfg`, the code as it is:
+  Two switches describe the two repairs (the `fix:` commits "KafkaWriter.Close writes out what
+  is still buffered" and "FifoBuffer.ReleaseGoroutines also releases a consumer that starts
+  waiting later" in /repo); both are `true` in `codeCfg`, the code as it is, and `false` in
+  `legacyCfg`, the code before them:
     drainOnDone    the writing loop empties the buffer after the done signal before returning
     releaseSticky  ReleaseGoroutines leaves a flag that makes PopMultiple return instead of waiting
 -/
@@ -41,10 +43,12 @@ structure Cfg where
   releaseSticky : Bool := false
   deriving Repr, DecidableEq
 
-/-- The constants of the code (identified with the extracted ones in Props/C19). -/
-def codeCfg : Cfg := { cap := 10000, batchMax := 100 }
-/-- The code after notes/C19.fix.patch. -/
-def fixedCfg : Cfg := { cap := 10000, batchMax := 100, drainOnDone := true, releaseSticky := true }
+/-- The code before the two repairs. -/
+def legacyCfg : Cfg := { cap := 10000, batchMax := 100 }
+/-- The code as it is: constants and switches (identified with the extracted ones in Props/C19). -/
+def codeCfg : Cfg := { cap := 10000, batchMax := 100, drainOnDone := true, releaseSticky := true }
+/-- (kept name) the repaired configuration = the code as it is. -/
+def fixedCfg : Cfg := codeCfg
 
 /-- Where the writing loop is. -/
 inductive WPc where
